@@ -27,6 +27,7 @@ RAW = [
  ("module-copy", "module m { x = 1 }; n = m; n.x = 5; p(m.x); p(n.x); return m.x"),
  ("import-strings", "s = import(\"strings\"); p(s.ToUpper(\"ab\")); p(s.Join([\"a\", \"b\"], \"-\")); return s.Contains(\"abc\", \"b\")"),
  ("import-rebind", "s = import(\"strings\"); s.ToLower = 5; t = import(\"strings\"); p(t.ToLower(\"X\")); p(s.ToLower); return t.ToLower(\"Y\")"),
+ ("import-assign-through", "r = import(\"strings\").ToUpper(\"x\"); import(\"strings\").ToUpper = 7; f = func(pk) { pk.ToLower = 8 }; f(import(\"strings\")); p(r); return import(\"strings\").ToLower(\"Y\")"),
  ("import-delete", "s = import(\"strings\"); t = import(\"strings\"); p(t.ToUpper(\"x\")); return s.ToUpper(\"y\")"),
  ("import-sort", "sort = import(\"sort\"); a = [3, 1, 2]; sort.Slice(a, func(i, j) { return a[i] < a[j] }); p(a); return a[0]"),
  ("varargs", "f = func(a, b...) { return len(b) + a }; p(f(1)); p(f(1, 2, 3)); x = [5, 6]; p(f(1, x...)); return f(0)"),
@@ -44,5 +45,20 @@ RAW = [
 ]
 
 
+# one tree, environments that differ in what the type name `num` means (DefineType before the run)
+VARIANT = [
+ ("vt-map", "m = make(map[string]num); m[\"a\"] = 2.9; p(m[\"a\"]); return m[\"a\"]"),
+ ("vt-struct", "s = make(struct { X num, Y string }); s.X = 2.9; p(s.X); return s.X"),
+ ("vt-slice", "a = make([]num, 1); a[0] = 2.9; p(a[0]); return a[0]"),
+ ("vt-map-literal", "m = map[string]num{\"a\": 2.9}; return m[\"a\"]"),
+ ("vt-slice-literal", "a = []num{2.9, 1}; return a[0]"),
+ ("vt-nested", "m = make(map[string][]num); m[\"a\"] = [2.9]; return m[\"a\"][0]"),
+ ("vt-chan", "c = make(chan num, 1); c <- 2.9; return <-c"),
+ ("vt-in-func", "f = func() { m = make(map[string]num); m[\"k\"] = 2.9; return m[\"k\"] }; p(f()); return f()"),
+ ("vt-make-scalar", "x = make(num); return x"),
+]
+
+
 def cases():
-    return [{"id": "raw-" + n, "src": s} for n, s in RAW]
+    return ([{"id": "raw-" + n, "src": s} for n, s in RAW] +
+            [{"id": "raw-" + n, "src": s, "variants": ["int64", "float64", "string"]} for n, s in VARIANT])
